@@ -541,6 +541,22 @@ class Engine:
   def st_Expr(self, stmt, st, func):
     if isinstance(stmt.value, ast.Constant):
       return self._finish(st)
+    # a library call used for its effect on `out=<name>`: the result is the
+    # new value of that name (np.divide(1, w, where=m, out=w) as a statement)
+    call = stmt.value
+    out_t = None
+    if isinstance(call, ast.Call) and self.repo.dotted(func.module,
+                                                       call.func):
+      for k in call.keywords:
+        if k.arg == 'out' and isinstance(k.value, ast.Name):
+          out_t = k.value
+    if out_t is not None and not (
+            self.repo.func_by_dotted(self.repo.dotted(func.module,
+                                                      call.func) or '')):
+      v = self.eval(call, st, func)
+      if not self._dead:
+        self.assign(out_t, v, st, func, stmt)
+      return self._finish(st)
     if self.dom.fork and isinstance(stmt.value, ast.Call):
       return self._forking_call(stmt.value, st, func, lambda v, s: None)
     self.eval(stmt.value, st, func)
